@@ -7,7 +7,7 @@ From Coq Require Import List ZArith Lia.
 Require Import Avro.Model.Base Avro.Model.Prim Avro.Model.Schema Avro.Model.GoType Avro.Model.Time
                Avro.Model.Spec Avro.Model.Codec Avro.Model.Container.
 Require Import Avro.Model.Typing.
-Require Import Avro.Proofs.SafeP Avro.Proofs.BuildP Avro.Proofs.TimeP Avro.Proofs.LayoutP Avro.Proofs.TypedP Avro.Proofs.CtypeP Avro.Proofs.ReadSafeP.
+Require Import Avro.Proofs.SafeP Avro.Proofs.BuildP Avro.Proofs.TimeP Avro.Proofs.LayoutP Avro.Proofs.TypedP Avro.Proofs.CtypeP Avro.Proofs.ReadSafeP Avro.Proofs.AllocP.
 Import ListNotations.
 Open Scope Z_scope.
 
@@ -74,6 +74,49 @@ Proof.
   split; [reflexivity|]. split; [vm_compute; lia|vm_compute; reflexivity].
 Qed.
 Print Assumptions C06_zero_width_items_refuted.
+
+(* The allocation clause.  [cells v]: what a Go value holds outside its own
+   fixed-size storage — bytes of strings and byte slices, slice items, map entries
+   and their key bytes, pointer targets: everything a decode has to allocate.  For
+   every codec tree without zero-width items, every destination, every byte string:
+   what a successful decode adds to the destination is at most a constant of the
+   codec ([st]: pointer targets created however short the input) plus the bytes
+   consumed times a constant of the codec ([rate]: one per nesting level of
+   collections plus the pointer targets of an item).  Bytes are what the run
+   measures (each cell costs at most the size of its type times append's slack). *)
+Theorem C06_decoded_heap_proportional : forall fuel c dest bs v r,
+  nzw c -> c_read fuel c dest bs = Done v r ->
+  cells v <= cells dest + st c + rate c * (len bs - len r).
+Proof. exact read_cells. Qed.
+Print Assumptions C06_decoded_heap_proportional.
+
+Theorem C06_decoded_heap_fresh : forall fuel c dest bs v r,
+  nzw c -> cells dest = 0 -> c_read fuel c dest bs = Done v r ->
+  cells v <= st c + rate c * len bs.
+Proof. exact read_cells_fresh. Qed.
+Print Assumptions C06_decoded_heap_fresh.
+
+(* ... and with zero-width items the bound fails: 1000 items from 3 bytes *)
+Theorem C06_zero_width_heap_refuted :
+  exists c dest bs v r fuel, c_read fuel c dest bs = Done v r /\ cells dest = 0 /\
+    cells v > st c + rate c * len bs.
+Proof.
+  exists (CArray CNull VBad false), (VSlice []), (enc_varint 1000 ++ [0]), (VSlice (repeat VBad 1000)), [], 2100%nat.
+  split; [vm_compute; reflexivity|]. split; vm_compute; reflexivity.
+Qed.
+Print Assumptions C06_zero_width_heap_refuted.
+
+(* non-vacuity: array of records holding a string and a pointer; 2 items from 9 bytes *)
+Example C06_heap_ex :
+  let ic := CRecord [(CString false, Some 0%nat); (CUnionOne (CPtr (CInt 64 false) (VInt 0)) 1, Some 1%nat)] in
+  let c := CArray ic (VStruct [VStr []; VPtr None]) false in
+  let bs := [4; 4; 104; 105; 2; 6; 0; 0; 0] in
+  nzw c /\ (st c, rate c) = (0, 3) /\
+  match c_read 40 c (VSlice []) bs with
+  | Done v r => (cells v, len bs - len r) = (5, 9)
+  | _ => False
+  end.
+Proof. split; [cbn; lia|]. split; vm_compute; reflexivity. Qed.
 
 (* primitive readers: total on every byte string *)
 Theorem C06_primitives_total : forall bs,
